@@ -547,6 +547,14 @@ def r12(ctx):
     livefw.check_sync_finished(ctx, "C10.R12", "useful-peer")
     ctx.floor("C10.R12", 24)
 
+def r13(ctx):
+    """"both the initiating and the accepting side finish with success or a reported error": whatever way our dial ends - success,
+    connection failure, a decline (document not found, internal error), a failed session or close - the live actor's completion
+    handler passes the outcome on to on_sync_finished, which records it and tells the subscribers (the dial-completion cells of
+    C11.R3)"""
+    from . import C11
+    ctx.share("C10.R13", C11.r3, "C11.R3", keep=lambda k: "dial-completion-is-reported" in k, floor=5)
+
 def run(ctx):
     ctx.run_rule("C10.R1", r1)
     ctx.run_rule("C10.R2", r2)
@@ -559,3 +567,4 @@ def run(ctx):
     ctx.run_rule("C10.R10", r10)
     ctx.run_rule("C10.R11", r11)
     ctx.run_rule("C10.R12", r12)
+    ctx.run_rule("C10.R13", r13)
